@@ -37,6 +37,13 @@ def c01(ctx):
                   ["chrono-tz offsets are facts", "alpha/gamma projection is faithful"])
 
 
+def text_family(ctx, mode, big):
+    """MC_Texts structured families: "esc" (string / uri escapes) and "num" (number spellings)"""
+    v, _ = tlc_mc(ctx, "MC_Texts", consts={"MaxLen": 4 if big else 3, "Mode": '"%s"' % mode, "EmitVectors": "TRUE", "KindFirst": "TRUE"},
+                  invariants=["ReaderTotal", "Emit"], workers=8, timeout=3000)
+    return v
+
+
 def c04(ctx):
     depth = 2 if ctx.quick else 3
     vecs = zinc_universe(ctx, depth)
@@ -58,11 +65,19 @@ def c04(ctx):
     ev2 = hs_rec(ctx, "zinc", n, ["--depth", "3" if ctx.quick else "5"])
     ctx.bads += tlc_trace(ctx, "Trace_Zinc", ev2, shards=14)
     note_events(ctx, ev2, trivial=trivial_value)
+    # sentences the writers never produce: the number and escape families of MC_Texts, read by the TLA+ grammar reader and by
+    # libhaystack (Trace_Total: a decidable sentence must be accepted and denote the same value)
+    fam = text_family(ctx, "num", True) + text_family(ctx, "esc", not ctx.quick)
+    ev3 = hs_run(ctx, fam, "fam")
+    ctx.bads += tlc_trace(ctx, "Trace_Total", ev3, shards=14)
+    note_events(ctx, ev3, key=lambda e: e.get("text"))
     return finish(ctx,
                   "spec writes / libhaystack reads: every distinct spelling (10 styles) of every MC_Zinc state (depth %d) decoded by "
                   "libhaystack, TLC requires Same(decoded, v); libhaystack writes / spec reads: the text libhaystack emits for every "
-                  "state and for %d random values must satisfy ZincDenotes(text, v) (the TLA+ grammar reader). distinct = distinct "
-                  "(value, text) pairs excluding payload-free scalars" % (depth, n),
+                  "state and for %d random values must satisfy ZincDenotes(text, v) (the TLA+ grammar reader); grammar families: every "
+                  "number spelling built from sign x digits x fraction x exponent x unit parts with `_` separators in every digit run, "
+                  "and every string / uri escape, in list / dict / grid-cell frames - read by the TLA+ reader and by libhaystack. "
+                  "distinct = distinct (value, text) pairs excluding payload-free scalars" % (depth, n),
                   ["Zinc.tla is a faithful transcription of the published grammar; debatable forms (optional uri escapes, "
                    "\\u surrogate pairs, bare CR) are never written by the spec writer"])
 
@@ -114,6 +129,13 @@ def c05(ctx):
     ev2 = hs_rec(ctx, "hayson", n, ["--depth", "3" if ctx.quick else "5"])
     ctx.bads += tlc_trace(ctx, "Trace_Hayson", ev2, shards=14)
     note_events(ctx, ev2, trivial=trivial_value)
+    # documents the writers never produce: every object of <= 2 members over the member names / leaves the Hayson visitor
+    # inspects (number spellings at the edges of i64 / u64 / f64 among the leaves), read by Hayson.tla and by libhaystack
+    vj, _ = tlc_mc(ctx, "MC_Texts", consts={"MaxLen": 2, "Mode": '"tree"', "EmitVectors": "TRUE", "KindFirst": "TRUE" if ctx.quick else "FALSE"},
+                   invariants=["ReaderTotal", "Emit"], workers=8, timeout=3000)
+    ev3 = hs_run(ctx, vj, "fam")
+    ctx.bads += tlc_trace(ctx, "Trace_Total", ev3, shards=14)
+    note_events(ctx, ev3, key=lambda e: e.get("tree"))
     return finish(ctx,
                   "spec writes / libhaystack reads: every distinct JSON tree (7 styles: member orders fwd/rev/rotated, _kind:dict "
                   "present/absent, meta absent/empty/with ver, tz on UTC, number spellings) of every MC_Hayson state (depth %d); "
@@ -179,7 +201,7 @@ def c03(ctx):
                    invariants=["ReaderTotal", "Emit"], workers=8, timeout=3000)
     ve, _ = tlc_mc(ctx, "MC_Texts", consts={"MaxLen": 3 if q else 4, "Mode": '"esc"', "EmitVectors": "TRUE", "KindFirst": "TRUE"},
                    invariants=["ReaderTotal", "Emit"], workers=8, timeout=3000)
-    vt = vt + ve
+    vt = vt + ve + text_family(ctx, "num", not q)
     # 2. prefixes and single edits of the documents the spec writer produces for the small universe
     docs = texts_of_universe(ctx, 0 if q else 1, [0, 3, 9])
     muts = [{"op": "dec.zinc.mutants", "text": t, "full": not q} for t in docs]
@@ -606,6 +628,52 @@ def capi_scripts(q):
         {"fn": "haystack_value_remove_dict_entry", "h": 2, "s": _S("a")}, {"fn": "haystack_value_remove_dict_entry", "h": 2, "s": _S("a")},
         {"fn": "haystack_value_get_dict_entry", "h": 2, "s": _S("dis")}, {"fn": "haystack_value_get_list_entry_at", "h": 3, "idx": 0},
         {"fn": "haystack_value_to_json_string", "h": 3}, {"fn": "haystack_value_to_zinc_string", "h": 2}]})
+    # (d) kind sweep: one value of every kind (Null included) put into a dict and a list, then every entry read back,
+    #     the keys listed, both codecs run, entries overwritten by another kind and removed
+    B = "0x%016x" % 0x4045000000000000      # 42.0
+    mk = [{"fn": "haystack_value_init"}, {"fn": "haystack_value_make_marker"}, {"fn": "haystack_value_make_na"}, {"fn": "haystack_value_make_remove"},
+          {"fn": "haystack_value_make_bool", "b": True}, {"fn": "haystack_value_make_number", "f1": B},
+          {"fn": "haystack_value_make_number_with_unit", "f1": B, "s": _S("m")}, {"fn": "haystack_value_make_str", "s": _S("\u00e9t\u00e9 \U0001F600")},
+          {"fn": "haystack_value_make_str", "s": _S("")}, {"fn": "haystack_value_make_ref", "s": _S("a-b")},
+          {"fn": "haystack_value_make_ref_with_dis", "s": _S("r"), "s2": _S("Dis \u00e9")}, {"fn": "haystack_value_make_uri", "s": _S("http://x/\u00e9")},
+          {"fn": "haystack_value_make_symbol", "s": _S("sym")}, {"fn": "haystack_value_make_xstr", "s": _S("Bin"), "s2": _S("text/plain")},
+          {"fn": "haystack_value_make_coord", "f1": B, "f2": "0x%016x" % 0xc053000000000000},
+          {"fn": "haystack_value_make_date", "n1": 2021, "n2": 2, "n3": 28}, {"fn": "haystack_value_make_time_millis", "n1": 23, "n2": 59, "n3": 59, "n4": 999},
+          {"fn": "haystack_value_make_list"}, {"fn": "haystack_value_make_dict"}]
+    calls = []
+    for i, c in enumerate(mk):
+        calls.append(dict(c, newh=i + 1))
+    n = len(mk)
+    dt, lst, dct, grid, D, L = n + 1, n + 2, n + 3, n + 4, n + 5, n + 6
+    calls += [{"fn": "haystack_value_make_tz_datetime", "h": 16, "h2": 17, "s": _S("Kolkata"), "newh": dt},
+              {"fn": "haystack_value_make_list", "newh": lst}, {"fn": "haystack_value_push_list_entry", "h": lst, "h2": 8},
+              {"fn": "haystack_value_make_dict", "newh": dct}, {"fn": "haystack_value_insert_dict_entry", "h": dct, "s": _S("a"), "h2": 8},
+              {"fn": "haystack_value_push_list_entry", "h": lst, "h2": dct},
+              {"fn": "haystack_value_make_list", "newh": n + 7}, {"fn": "haystack_value_push_list_entry", "h": n + 7, "h2": dct},
+              {"fn": "haystack_value_make_grid_from_rows", "h": n + 7, "newh": grid},
+              {"fn": "haystack_value_make_dict", "newh": D}, {"fn": "haystack_value_make_list", "newh": L}]
+    members = list(range(1, n + 1)) + [dt, lst, dct, grid]
+    for j, h in enumerate(members):
+        calls.append({"fn": "haystack_value_insert_dict_entry", "h": D, "s": _S("k%d" % j), "h2": h})
+        calls.append({"fn": "haystack_value_push_list_entry", "h": L, "h2": h})
+    calls += [{"fn": "haystack_value_get_dict_len", "h": D}, {"fn": "haystack_value_get_list_len", "h": L},
+              {"fn": "haystack_value_init", "newh": n + 8}, {"fn": "haystack_value_get_dict_keys", "h": D, "h2": n + 8}]
+    for j, h in enumerate(members):
+        calls.append({"fn": "haystack_value_get_dict_entry", "h": D, "s": _S("k%d" % j)})
+        calls.append({"fn": "haystack_value_get_list_entry_at", "h": L, "idx": j})
+    calls += [{"fn": "haystack_value_get_dict_entry", "h": D, "s": _S("absent")}, {"fn": "haystack_value_get_list_entry_at", "h": L, "idx": len(members)},
+              {"fn": "haystack_value_to_zinc_string", "h": D}, {"fn": "haystack_value_to_json_string", "h": D},
+              {"fn": "haystack_value_to_zinc_string", "h": L}, {"fn": "haystack_value_to_json_string", "h": L}]
+    for j, h in enumerate(members):
+        other = members[(j + 5) % len(members)]
+        calls.append({"fn": "haystack_value_insert_dict_entry", "h": D, "s": _S("k%d" % j), "h2": other})
+        calls.append({"fn": "haystack_value_set_list_entry_at", "h": L, "idx": j, "h2": other})
+    for j in range(0, len(members), 2):
+        calls.append({"fn": "haystack_value_remove_dict_entry", "h": D, "s": _S("k%d" % j)})
+        calls.append({"fn": "haystack_value_remove_list_entry_at", "h": L, "idx": 0})
+    calls += [{"fn": "haystack_value_get_dict_len", "h": D}, {"fn": "haystack_value_get_list_len", "h": L},
+              {"fn": "haystack_value_to_zinc_string", "h": D}, {"fn": "haystack_value_to_json_string", "h": L}]
+    hist.append({"op": "capi.history", "calls": calls})
     return hist
 
 
